@@ -126,6 +126,53 @@ func c06Pass(t *rapid.T, g *gcState) {
 	for _, rn := range gcRepos {
 		_ = g.srv.VerifAgeBlobs(rn, 3*time.Hour)
 	}
+	// ---- a first scheduled pass (as the ticker would run it: prev = zero time), then a few more changes, then the
+	// pass under test with the real previous tick: a repository is only visited if it was flagged as modified since
+	tick0 := time.Now()
+	_ = g.srv.VerifGCPass(tick0, time.Time{})
+	// (a pass that changed a repository flags it again; the following tick finds nothing and leaves it unflagged)
+	time.Sleep(2 * time.Millisecond)
+	tick1 := time.Now()
+	_ = g.srv.VerifGCPass(tick1, tick0)
+	for _, rn := range gcRepos {
+		r, err := g.readRepo(rn)
+		if err != nil {
+			g.abandon("cannot read repository after the first pass")
+		}
+		mr := g.repo(rn)
+		for _, d := range sortedKeys(mr.blobs) {
+			if _, ok := r.blobs[d]; !ok {
+				delete(mr.blobs, d)
+			}
+		}
+		for _, d := range sortedKeys(mr.mans) {
+			if _, ok := r.blobs[d]; !ok {
+				g.modelDeleteDigest(rn, d)
+			} else if m := g.do("HEAD", "/v2/"+rn+"/manifests/"+d, nil, hdr("Accept", acceptAll)); m.code == 404 {
+				g.modelDeleteDigest(rn, d)
+			}
+		}
+	}
+	time.Sleep(3 * time.Millisecond)
+	for i, n := 0, rapid.IntRange(0, 4).Draw(t, "changesAfterFirstPass"); i < n; i++ {
+		g.class("changes-between-passes")
+		g.outsideRepeat = true
+		switch rapid.IntRange(0, 3).Draw(t, "changeKind") {
+		case 0, 1:
+			g.guard(func() { g.opDelete(t) })
+		case 2:
+			g.guard(func() { g.opPushManifest(t) })
+		case 3:
+			g.guard(func() { g.opPushBlob(t) })
+		}
+		if g.abandoned {
+			return
+		}
+	}
+	for _, rn := range gcRepos {
+		_ = g.srv.VerifAgeBlobs(rn, 3*time.Hour)
+	}
+	time.Sleep(time.Millisecond)
 	// ---- the mix of unhealthy repositories
 	kinds := []string{"ghost", "ghost", "empty"}
 	if g.isDir() {
@@ -199,8 +246,8 @@ func c06Pass(t *rapid.T, g *gcState) {
 		before[rn] = p
 	}
 	// ---- the pass
-	g.logf("store-wide pass")
-	_ = g.srv.VerifGCPass(time.Now(), time.Time{})
+	g.logf("scheduled store-wide pass (previous tick %v ago)", time.Since(tick1).Round(time.Millisecond))
+	_ = g.srv.VerifGCPass(time.Now(), tick1)
 	after := map[string]*c06Repo{}
 	for _, rn := range gcRepos {
 		r, err := g.readRepo(rn)
